@@ -63,6 +63,10 @@ pub struct Scn {
     /// its readiness before it can call (arrival = the call, after readiness)
     #[serde(default)]
     pub inner_capacity: Option<u32>,
+    /// the bulkhead under test sits inside another, far wider bulkhead with the same (default)
+    /// name: two bulkheads are two bulkheads, whatever they are called
+    #[serde(default)]
+    pub nested: bool,
 }
 
 const PROBE_LAT: u64 = 20;
@@ -105,6 +109,7 @@ pub fn gen(rng: &mut Rng) -> Scn {
     }
     let pre = if max_wait.is_some() { *rng.pick(&[0u8, 0, 0, 1, 2, 3, 4]) } else { *rng.pick(&[0u8, 0, 0, 4]) };
     Scn {
+        nested: rng.chance(1, 6),
         inner_capacity: if !shared_handle && rng.chance(1, 6) { Some(rng.range(1, 3) as u32) } else { None },
         two_services,
         shared_handle,
@@ -214,9 +219,26 @@ pub fn run(s: &Scn, ctx: &mut RunCtx, prefix: &'static str) -> RunOutput {
         }
         let layer = b.build();
         // the one shared handle per service (never cloned unless a caller clones it on arrival)
-        let Some(shared): Option<Vec<std::rc::Rc<std::cell::RefCell<_>>>> =
-            build_guarded("C07.admit_at_once", &format!("a bulkhead with max_concurrent_calls={}", count(scn.max)), || (0..2u8).map(|k| std::rc::Rc::new(std::cell::RefCell::new(layer.layer(SimInner::new(k))))).collect())
-        else {
+        type Svc = tower::util::BoxCloneService<Req, crate::inner::Resp, BulkheadServiceError<crate::inner::SimErr>>;
+        let nested = scn.nested;
+        let Some(shared): Option<Vec<std::rc::Rc<std::cell::RefCell<Svc>>>> = build_guarded("C07.admit_at_once", &format!("a bulkhead with max_concurrent_calls={}", count(scn.max)), || {
+            (0..2u8)
+                .map(|k| {
+                    let inner = layer.layer(SimInner::new(k));
+                    let svc: Svc = if nested {
+                        // the outer bulkhead never limits anything here (64 slots, unlimited wait)
+                        let outer = BulkheadLayer::builder().max_concurrent_calls(64).build();
+                        tower::util::BoxCloneService::new(outer.layer(inner).map_err(|e| match e {
+                            BulkheadServiceError::Inner(e) => e,
+                            BulkheadServiceError::Bulkhead(b) => BulkheadServiceError::Bulkhead(b),
+                        }))
+                    } else {
+                        tower::util::BoxCloneService::new(inner)
+                    };
+                    std::rc::Rc::new(std::cell::RefCell::new(svc))
+                })
+                .collect()
+        }) else {
             return vec![];
         };
         let mut defs = vec![];
